@@ -1,0 +1,6 @@
+//go:build !verif
+
+package auth
+
+// verifYield is a no-op in normal builds; see zz_verif_yield.go.
+func verifYield(point string) {}
